@@ -1030,6 +1030,8 @@ impl ParserState {
         self.last_force_bytes_len = usize::MAX;
         self.lexer_stack_top_eos = false;
         self.rows_valid_end = self.num_rows();
+        // rows above the new top will be rebuilt, possibly with different items under the same index
+        self.bias_cache = None;
 
         self.assert_definitive();
 
